@@ -12,6 +12,7 @@ CONSTANTS
   Weights = {50, 100}
   MaxOps = 0
   Emit = TRUE
+  ReprOf <- ReprId
 INVARIANTS PrintHist
 VIEW View
 CHECK_DEADLOCK FALSE
